@@ -1,5 +1,5 @@
 // C06 correspondence harness: real write_fits / write_fits_mem / read_fits / read_fits_mem, in-process.
-//   gen  <n> <cases> <impl> <stats> <maxcoef> <scratchdir>   tables from VERIF_SEED; real write → bytes; real read-back
+//   gen  <n> <cases> <impl> <stats> <maxcoef> <scratchdir> [quotes]   tables from VERIF_SEED; real write → bytes; real read-back
 //   read <model-output> <impl2> <scratchdir>                 files encoded by the Lean side → real readers
 //   file <path>...                                           dump shipped files through both real readers
 #include "fits_common.h"
@@ -54,9 +54,32 @@ int main(int argc, char** argv) {
     std::ofstream cases(argv[3]), impl(argv[4]), stats(argv[5]);
     GenOpts g; g.max_coef = atol(argv[6]);
     std::string dir = argv[7];
+    g.aux_quotes = argc > 8 && std::string(argv[8]) == "quotes";   // C06 asks for apostrophes in aux values; C07 (base files) does not
+    std::map<std::string, int> qstats;
     std::map<int, int> dims, orders, auxn; int disk = 0, mem = 0, special = 0, noext = 0, noper = 0, evalpts = 0;
     for (int id = 0; id < n; id++) {
-      Spec s = gen_spec(rng, g, id < 9 ? id + 1 : 0);
+      int qcls = !g.aux_quotes ? -1 : id < 2 * N_QCLS ? id % N_QCLS : rng.coin(1, 3) ? (int)rng.below(N_QCLS) : -1;
+      Spec s = gen_spec(rng, g, id < 9 ? id + 1 : 0, qcls);
+      if (qcls >= 0) qstats[std::string("forced:") + qcls_name(qcls)]++;
+      for (auto& kv : s.aux) {
+        const std::string& v = kv.second;
+        size_t nq = std::count(v.begin(), v.end(), '\'');
+        qstats["values"]++;
+        { static const char* w[] = {"TYP", "ORDE", "NAXI", "PERIO", "EXTEN", "COMMEN", "SIMPL", "BITPI", "EXTNAM", "HDUNAM", "EN", "HISTOR", "CONTINU", "HIERARC", "BLANK", "XTENSIO", "PCOUN", "GCOUN", "BSCAL", "BZER"};
+          bool nr = kv.first == "T" || kv.first == "E";
+          for (auto x : w) if (kv.first.find(x) != std::string::npos) nr = true;
+          if (nr) qstats["key-near-reserved-name"]++; }
+        if (!nq) continue;
+        qstats["with-apostrophe"]++;
+        if (v.find("''") != std::string::npos) qstats["with-adjacent-apostrophes"]++;
+        if (v.find("'''") != std::string::npos) qstats["with-run-of-3+"]++;
+        if (nq == v.size()) qstats["apostrophes-only"]++;
+        if (v[0] == '\'') qstats["leading"]++;
+        if (v[v.size() - 1] == '\'') qstats["trailing"]++;
+        if (v.size() + nq >= 66) qstats["stored-length>=66"]++;
+        if (v.size() + nq == 68) qstats["stored-length=68"]++;
+        if (v.size() + nq < 8) qstats["stored-length<8"]++;
+      }
       Table t; build_from_spec(t, s);
       Spec built = spec_of(t);
       dims[s.order.size()]++; for (auto o : s.order) orders[o]++; auxn[s.aux.size() > 12 ? 40 : s.aux.size()]++;
@@ -107,6 +130,7 @@ int main(int argc, char** argv) {
     bool first = true; for (auto& kv : dims) { stats << (first ? "" : ", ") << '"' << kv.first << "\": " << kv.second; first = false; }
     stats << "}, \"order\": {"; first = true; for (auto& kv : orders) { stats << (first ? "" : ", ") << '"' << kv.first << "\": " << kv.second; first = false; }
     stats << "}, \"naux\": {"; first = true; for (auto& kv : auxn) { stats << (first ? "" : ", ") << '"' << kv.first << "\": " << kv.second; first = false; }
+    stats << "}, \"aux_values\": {"; first = true; for (auto& kv : qstats) { stats << (first ? "" : ", ") << '"' << kv.first << "\": " << kv.second; first = false; }
     stats << "}}\n";
     return 0;
   }
